@@ -359,3 +359,41 @@ class FallbackLocator(FunctionContract):
 
 
 CONTRACTS.append(FallbackLocator())
+
+
+class LocateOnRange(FunctionContract):
+    """_locate_period_in_span on real `range` spans (with strides, counting down, negative origin): the position of the label in the range, KeyError
+    for an integer the range does not contain - in particular one that lies between two of its elements.  (Ranges and labels enumerated.)"""
+    qualname = 'fsic.core.containers.VectorContainer._locate_period_in_span'
+    props = ('C10', 'C05')
+
+    CASES = {
+        'unit/first': (range(2000, 2005), 2000, 0), 'unit/last': (range(2000, 2005), 2004, 4), 'unit/stop': (range(2000, 2005), 2005, KeyError), 'unit/before': (range(2000, 2005), 1999, KeyError),
+        'stride/second': (range(2000, 2030, 5), 2005, 1), 'stride/last': (range(2000, 2030, 5), 2025, 5), 'stride/between': (range(2000, 2030, 5), 2001, KeyError),
+        'stride/just-before-an-element': (range(2000, 2030, 5), 2009, KeyError), 'stride/stop': (range(2000, 2030, 5), 2030, KeyError),
+        'down/found': (range(10, 0, -2), 4, 3), 'down/between': (range(10, 0, -2), 5, KeyError), 'down/stop': (range(10, 0, -2), 0, KeyError),
+        'negative-origin/found': (range(-4, 5, 2), 0, 2), 'negative-origin/between': (range(-4, 5, 2), -1, KeyError), 'empty': (range(0), 0, KeyError),
+        'numpy-scalar': (range(2000, 2030, 5), 'np.int64(2010)', 2), 'float-equal': (range(2000, 2030, 5), 2010.0, 2), 'float-between': (range(2000, 2030, 5), 2010.5, KeyError),
+    }
+
+    def scenarios(self):
+        return ['range:' + k for k in self.CASES]
+
+    def setup(self, interp, scenario):
+        import numpy as np
+        span, label, want = self.CASES[scenario[6:]]
+        if isinstance(label, str):
+            label = np.int64(int(label[9:-1]))
+        obj = SObj(VectorContainer, {'span': span}, label='c')
+        return Call([label], {}, self_obj=obj, entry={'want': want, 'inputs': {}})
+
+    def post(self, interp, scenario, call, out):
+        ctx = interp.ctx
+        want = call.entry['want']
+        if out.kind == 'raise':
+            ctx.prove(z3.BoolVal(want is KeyError and exc_class(out.exc) is KeyError), 'KeyError_exactly_for_an_integer_the_range_does_not_contain', 'raises', note=str(want))
+            return
+        ctx.prove(z3.BoolVal(want is not KeyError and int(out.value) == want and isinstance(out.value, int)), 'returns_the_position_of_the_label_in_the_range', 'ensures', note=f'{out.value!r} vs {want!r}')
+
+
+CONTRACTS.append(LocateOnRange())
